@@ -3,7 +3,9 @@
 Engine: programs x histories (DESIGN 3/C16).
   programs  = every rooted tree of render classes with 1..4 nodes below ``Renderable`` (up to tree
               isomorphism) x every subset of classes owning an ArgsNamespace (field ``a`` over
-              {default, 1, 2}; variants: one owner with a second field ``b``; one owner whose namespace
+              {default, float(default), 1, True[, 2]} - i.e. with values that are EQUAL but distinguishable by
+              type, so that an "equal" object is not necessarily "the same" object; second field ``b`` with a
+              tuple default and fresh equal tuples; variants: one owner with a second field ``b``; one owner whose namespace
               class has a field-inheriting subclass) x seeding mode (eager: the shared default set of
               every class is created right after the class and its namespaces, i.e. before any subclass
               exists; lazy: no set exists at the start, defaults are interned by the explored operations
@@ -32,8 +34,11 @@ Oracle: ``c16_model.Model`` (dict-based reference written from the docstrings, D
         through ``[]``, iteration, ``in``, ``==``, ``hash`` and compared with the model (equal <=> same
         class and values, equal => equal hash) against every object of the pool; after every operation
         every pre-existing object of the pool, every constituent namespace, every interned default and
-        every class's ``Args`` / ``_ALL_DEFAULT_ARGS`` / ``_RENDER_DATA_MRO`` must be unchanged, an interned
-        default must never be replaced and must hold the default values; a result may be an existing
+        every class's ``Args`` / ``_ALL_DEFAULT_ARGS`` / ``_RENDER_DATA_MRO`` must be unchanged - compared by
+        IDENTITY of the constituent namespaces of a set and by value AND TYPE of every field (a set re-initialised
+        in place with equal namespaces, or 1 turned into True, is an alteration; ``==`` cannot see either) -,
+        an interned default must never be replaced and must hold the declared default values (types included);
+        expected and observed values of results are compared type-sensitively as well; a result may be an existing
         object only if that object has the expected value.
 Part S (structure): full product args-owner subsets x data-owner subsets of every tree: class tables,
         ``RenderData`` contents and namespaces, and a menu of namespace class definitions (field without
@@ -51,7 +56,7 @@ import sys
 
 from .. import explore, world
 from ..harness import Collector, jsonable
-from ..c16_model import ABSENT, NONE, V1, V2, Model, Prog, Spec, default_a, labelled_programs
+from ..c16_model import ABSENT, NONE, Model, Prog, Spec, labelled_programs, real_value, typed, untyped
 
 ID = "C16"
 LEVEL = "model_checking"
@@ -73,7 +78,7 @@ TAINTING = ("existing-object-altered", "class-defaults-altered", "shared-default
 
 
 class Obj:
-    __slots__ = ("o", "d", "uid", "snap", "h", "parts", "deep")
+    __slots__ = ("o", "d", "val", "uid", "snap", "h", "parts", "deep")
 
     def __repr__(self):
         return f"<{self.uid}:{self.d}>"
@@ -129,7 +134,7 @@ class Engine:
         self.memo = {}
         self.confirmed = {}
         self.fsets = [self.M.field_sets(c, full) for c in self.M.classes]
-        self.mkops = self.M.mk_ops()
+        self.mkops = self.M.mk_ops(full)
         self.nstates = 0
         self.ntrans = 0
         self.seen = set()
@@ -142,7 +147,9 @@ class Engine:
         for c in self.M.owners:
             for k in (self.P.args_cls[c], self.P.sub_cls[c]):
                 if k is not None:
-                    self.getters[k] = operator.attrgetter(*self.M.fields[c])
+                    f = self.M.fields[c]
+                    self.getters[k] = (operator.attrgetter(*f) if len(f) > 1
+                                       else (lambda o, g=operator.attrgetter(f[0]): (g(o),)))
         self.observed = set()
         self.state0 = self.initial_state()
         self.in_prefix = False
@@ -176,20 +183,22 @@ class Engine:
     def snap(self, o):
         """Shallow value of a real object (constituent namespaces are watched separately)."""
         if type(o) is self.RA:
-            return (o.render_cls, tuple(o._namespaces.items()))
+            # identity of the constituents: a set must keep holding the very namespaces it was built with
+            return (o.render_cls, tuple([(k, id(v)) for k, v in o._namespaces.items()]))
         g = self.getters.get(type(o))
-        if g is None:
-            return (type(o), tuple(o.as_dict().values()))
-        return g(o)
+        vals = g(o) if g is not None else tuple(o.as_dict().values())
+        # type-sensitive: True in place of 1 is a change
+        return (type(o), vals, tuple(map(type, vals)))
 
     def describe(self, o):
         """Descriptor of a real object, read through the public API only."""
         idx = self.P.idx
         if isinstance(o, self.RA):
-            comps = sorted([(idx[ns.get_render_cls()], tuple(ns.as_dict().values())) for ns in o])
+            comps = sorted([(idx[ns.get_render_cls()], tuple(map(typed, ns.as_dict().values()))) for ns in o],
+                           key=lambda x: x[0])
             return ("A", idx[o.render_cls], tuple(comps), self.interned.get(o.render_cls) is o)
         c = idx[o.get_render_cls()]
-        return ("N", c, tuple(o.as_dict().values()), type(o) is self.P.sub_cls[c])
+        return ("N", c, tuple(map(typed, o.as_dict().values())), type(o) is self.P.sub_cls[c])
 
     def wrap(self, o, ids=None, d=None):
         if ids is not None:
@@ -199,6 +208,7 @@ class Engine:
         ob = Obj()
         ob.o, ob.d, ob.uid, ob.snap = o, (d or self.describe(o)), self.nuid, self.snap(o)
         ob.h = hash(o)
+        ob.val = untyped(ob.d)
         if ob.d[0] == "A":
             # constituent namespaces, watched for in-place changes
             ob.parts = [(ns, self.snap(ns)) for ns in o._namespaces.values()]
@@ -247,7 +257,7 @@ class Engine:
         watch = {}
         for ob in s.ids.values():
             for ns, sn in ob.parts:
-                watch[id(ns)] = (ns, sn)
+                watch[id(ns)] = [ns, sn]
         s.watch = list(watch.values())
         return s
 
@@ -285,7 +295,7 @@ class Engine:
         if k == "upd_ns":
             return pool[op[1]].o.update(*[pool[i].o for i in op[2]])
         if k == "upd_f":
-            return pool[op[1]].o.update(P.cls[op[2]], **dict(op[3]))
+            return pool[op[1]].o.update(P.cls[op[2]], **{f: real_value(op[2], f, t) for f, t in op[3]})
         if k == "upd_bad_kw":
             return pool[op[1]].o.update(pool[op[2]].o, a=1)
         if k == "upd_bad_pos":
@@ -303,10 +313,14 @@ class Engine:
                 return pool[op[1]].o.to_render_args()
             return pool[op[1]].o.to_render_args(P.cls[op[2]])
         if k == "nsupd":
-            return pool[op[1]].o.update(**dict(op[2]))
+            c = pool[op[1]].d[1]
+            return pool[op[1]].o.update(**{f: real_value(c, f, t) for f, t in op[2]})
         if k == "mk":
             _, c, pos, kw, sub = op
-            return (P.sub_cls[c] if sub else P.args_cls[c])(*pos, **dict(kw))
+            names = self.M.fields[c]
+            return (P.sub_cls[c] if sub else P.args_cls[c])(
+                *[real_value(c, names[i] if i < len(names) else "a", t) for i, t in enumerate(pos)],
+                **{f: real_value(c, f, t) for f, t in kw})
         raise world.HarnessError(f"C16: unknown op {op!r}")
 
     def rel(self, c1, c2):
@@ -325,7 +339,10 @@ class Engine:
             return "ns-sub" if d[3] else "ns"
         if d[3]:
             return "interned-default"
-        return "default-valued" if d[:3] == self.M.default_args(d[1]) else "non-default"
+        dflt = self.M.default_args(d[1])
+        if d[:3] == dflt:
+            return "default-valued"
+        return "default-equal" if untyped(d) == untyped(dflt) else "non-default"
 
     def shape(self, S, op):
         """Coarse, value-free description of an operation for violation signatures."""
@@ -343,7 +360,7 @@ class Engine:
             return dict(op=k, init=self.kind_of(D[op[1]]), ns=[self.rel(D[op[1]][1], D[x][1]) for x in op[2]])
         if k == "upd_f":
             return dict(op=k, init=self.kind_of(D[op[1]]), target=self.rel(D[op[1]][1], op[2]),
-                        owner=bool(self.M.nf[op[2]]), fields=[f[0] for f in op[3]])
+                        owner=bool(self.M.nf[op[2]]), fields=[f"{f}={t}" for f, t in op[3]])
         if k == "conv":
             return dict(op=k, init=self.kind_of(D[op[1]]), target=self.rel(D[op[1]][1], op[2]),
                         target_interned=(op[2] in S.imap))
@@ -353,9 +370,9 @@ class Engine:
         if k == "tra":
             return dict(op=k, target=("none" if op[2] < 0 else self.rel(D[op[1]][1], op[2])))
         if k == "mk":
-            return dict(op=k, npos=len(op[2]), kw=[f[0] for f in op[3]], sub=op[4])
+            return dict(op=k, pos=list(op[2]), kw=[f"{f}={t}" for f, t in op[3]], sub=op[4])
         if k == "nsupd":
-            return dict(op=k, fields=[f[0] for f in op[2]], sub=D[op[1]][3])
+            return dict(op=k, fields=[f"{f}={t}" for f, t in op[2]], sub=D[op[1]][3])
         return dict(op=k)
 
     def report(self, S, op, clause, what, **extra):
@@ -438,11 +455,14 @@ class Engine:
         snap = self.snap
         for ob in S.ids.values():
             if snap(ob.o) != ob.snap:
+                old, ob.snap = ob.snap, snap(ob.o)     # (linear executions go on: report it once)
                 self.report(S, op, "existing-object-altered",
-                            f"object {ob.d} changed: {ob.snap} -> {snap(ob.o)}", victim=self.kind_of(ob.d))
-        for ns, sn in S.watch:
-            if snap(ns) != sn:
-                self.report(S, op, "existing-object-altered", f"namespace changed in place: {sn} -> {snap(ns)}",
+                            f"object {ob.d} changed: {old} -> {ob.snap}; it now reads {ob.o!r}",
+                            victim=self.kind_of(ob.d))
+        for w in S.watch:
+            if snap(w[0]) != w[1]:
+                old, w[1] = w[1], snap(w[0])
+                self.report(S, op, "existing-object-altered", f"namespace changed in place: {old} -> {w[1]}",
                             victim="constituent-namespace")
         if self.class_tables_changed():
             self.report(S, op, "class-defaults-altered", "_ALL_DEFAULT_ARGS / Args / _Data_ of a class changed")
@@ -481,7 +501,7 @@ class Engine:
                 return None
         known = ids.get(id(res))
         try:
-            d = known.d if known is not None else self.describe(res)
+            d = self.describe(res)      # (also for an existing object: what it holds NOW, types included)
         except Exception as e:
             self.report(S, op, "result-unreadable", f"{type(e).__name__}: {e}")
             return None
@@ -529,7 +549,7 @@ class Engine:
                         if g[0] == "err":
                             self.report(S, op, "getitem", f"args[{c}] returned {ns!r}, expected {sorted(g[1])}",
                                         item=self.rel(d[1], c))
-                        elif not isinstance(ns, P.args_cls[c]) or tuple(ns.as_dict().values()) != g[1][2]:
+                        elif not isinstance(ns, P.args_cls[c]) or tuple(map(typed, ns.as_dict().values())) != g[1][2]:
                             self.report(S, op, "getitem", f"args[{c}] returned {ns!r}, expected values {g[1][2]}",
                                         item=self.rel(d[1], c))
             comps = None
@@ -548,14 +568,14 @@ class Engine:
             if self.snap(o) != ob.snap:
                 self.report(S, op, "namespace-attribute-writable", "attribute assignment altered a namespace")
         # equality / hash / containment against the pool
-        val = d[:3]
+        val = ob.val
         for p in S.objs:
             pk = (deep, p.uid)
             if pk in observed:
                 continue
             observed.add(pk)
             n += 1
-            same = p.d[:3] == val
+            same = p.val == val
             e1, e2 = (o == p.o), (p.o == o)
             if e1 != same or e2 != same or (o != p.o) == same:
                 self.report(S, op, "equality", f"{d} == {p.d} is {e1}/{e2}, model says {same}")
@@ -563,8 +583,8 @@ class Engine:
                 self.report(S, op, "hash", f"equal objects {d} and {p.d} hash differently")
             if d[0] == "A" and p.d[0] == "N":
                 if comps is None:
-                    comps = dict(d[2])
-                if (p.o in o) != (comps.get(p.d[1]) == p.d[2]):
+                    comps = dict(val[2])
+                if (p.o in o) != (comps.get(p.d[1]) == p.val[2]):
                     self.report(S, op, "contains", f"({p.d} in {d}) is {p.o in o}")
         # ... and against the first object ever produced with the same value in this program
         # (linear executions only: there every earlier object belongs to the same history, so the case replays)
@@ -813,7 +833,7 @@ def structure_case(col, case):
                 bad("default-args-table", f"class {c}: default namespaces for {got}, expected {M.omro[c]}")
             for x, ns in k._ALL_DEFAULT_ARGS.items():
                 xi = P.idx.get(x, -1)
-                if xi in M.default and (type(ns) is not P.args_cls[xi] or tuple(ns.as_dict().values()) != M.default[xi]):
+                if xi in M.default and (type(ns) is not P.args_cls[xi] or tuple(map(typed, ns.as_dict().values())) != M.default[xi]):
                     bad("default-args-table", f"class {c}: default namespace of {xi} is {ns!r}")
             if (k.Args is not P.args_cls[c]) or (c and k._Data_ is not P.data_cls[c]):
                 bad("association", f"class {c}: Args={k.Args!r} _Data_={k._Data_!r}")
@@ -1029,7 +1049,7 @@ def depth_for(spec, tier, opts):
     extra = sum(1 for x in spec.nf if x == 2) + sum(spec.sub)
     if tier == "quick":
         return 2 if (n == 4 and owners >= 3) else 3
-    return 4 if owners + extra <= 2 else 3
+    return 4 if (owners + extra <= 1 or n <= 2) else 3
 
 
 def cost_estimate(spec, depth):
@@ -1184,10 +1204,14 @@ def run(ctx):
         programs_ops=len(items), programs_structure=len(scases), programs_unmerged=n_unm,
         bounds=dict(tree_nodes_below_Renderable="1..4, every shape, up to isomorphism",
                     args_owner_subsets="all", variants="one owner with 2 fields; one owner with a namespace subclass",
-                    seeding=["eager", "lazy"], values="a in {default,1,2}, b in {default,1}",
+                    seeding=["eager", "lazy"],
+                    values={"quick": "a in {default, float(default), 1, True} (4-class programs: without the int 1); "
+                                     "b in {default tuple (a fresh equal tuple), 1}",
+                            "thorough": "a in {default, float(default), 1, True} (+ 2 in programs with <= 2 classes); "
+                                        "b in {default tuple (a fresh equal tuple), 1}"}[tier],
                     constructor="every class x init in {absent, None, every set in the pool} x <=2 namespaces",
                     depth={"quick": "3 (2 for 4-class programs with >= 3 owners; no variants for 4-class programs)",
-                           "thorough": "4 when owners + variant extras <= 2, else 3"}[tier],
+                           "thorough": "4 for programs with <= 2 classes or <= 1 owner (no variant), else 3"}[tier],
                     unmerged={"quick": "depth 2, programs with 1 class or 2 classes and <= 1 owner",
                               "thorough": "depth 3 for 1-class programs, depth 2 for 2-class programs and for 3-class "
                                           "programs with <= 2 owners/variant extras"}[tier]))
